@@ -1,8 +1,12 @@
 (* C09/Props.v — the property theorems claimed for C09, nothing else.
    Each is closed by [exact] of a lemma from Proofs*.v and followed by
-   Print Assumptions (parsed into the evidence file by ./check). *)
-Require Import Base.Prelude C09.Generated C09.Model C09.Proofs C09.ProofsStats C09.ProofsConv C09.ProofsMean C09.ProofsNeg C09.ProofsMean3.
-From Coq Require Import QArith Qabs.
+   Print Assumptions (parsed into the evidence file by ./check).
+   "forall A : Arith" = for every arithmetic instance, in particular BOTH the exact one
+   (ExactArith, option Q) and the float one (FloatArith: SpecFloat binary32 + PrimFloat
+   binary64) that is extracted and compared bit-for-bit with the implementation. *)
+Require Import Base.Prelude C09.Generated C09.Arith C09.Model C09.Proofs C09.ProofsStats C09.ProofsConv
+        C09.ProofsMean C09.ProofsNeg C09.ProofsMean3.
+From Coq Require Import QArith Qabs PrimFloat.
 Open Scope Z_scope.
 
 (* focal apply — for EVERY raster size, EVERY odd kernel shape (2hr+1) x (2hc+1) (non-square,
@@ -31,36 +35,64 @@ Theorem C09_apply_numpy_tabulate :
 Proof. exact @apply_numpy_spec. Qed.
 Print Assumptions C09_apply_numpy_tabulate.
 
-(* focal_stats: the kernel is accepted and layer k is apply with the reducer NAMED by stats_funcs[k]
-   (named_reducer is the hand-written expectation mean -> nanmean, max -> nanmax, ...; the table of the
-   source is regenerated into Generated.function_mapping on every run), in request order. *)
+(* focal_stats, every arithmetic instance: the kernel is accepted and layer k is apply with the reducer
+   NAMED by stats_funcs[k] (named_reducer is the hand-written expectation mean -> nanmean, max -> nanmax,
+   ..., each followed by the store into the float32 output; the table of the source is regenerated into
+   Generated.function_mapping on every run), in request order. *)
 Theorem C09_focal_stats_spec :
-  forall (qsqrt : Q -> Q) (data : grid xq) (kernel : grid Q) (rows cols hr hc : Z),
+  forall (A : Arith) (data : grid (T32 A)) (kernel : grid (T64 A)) (rows cols hr hc : Z),
   0 <= hr -> 0 <= hc -> wf data rows cols -> wf kernel (2 * hr + 1) (2 * hc + 1) -> 0 < rows ->
   forall stats,
-  focal_stats qsqrt data kernel stats =
+  focal_stats A data kernel stats =
   Some (map (fun s => tabulate (fun y x =>
-               named_reducer qsqrt s (window_spec None 0%Q is_one_q data kernel rows cols hr hc y x)) rows cols) stats).
+               named_reducer A s (window_spec (snan A) (dnan A) (is_one A) data kernel rows cols hr hc y x)) rows cols) stats).
 Proof. exact focal_stats_spec. Qed.
 Print Assumptions C09_focal_stats_spec.
 
-(* NaN cells ignored, exactly the cells under the 1-entries: the non-NaN values a reducer finds in the
-   window are the non-NaN cells under the kernel (clipped at the edge), in row-major order ... *)
-Theorem C09_window_values :
-  forall data kernel rows cols hr hc y x,
-  wvals (window_spec None 0%Q is_one_q data kernel rows cols hr hc y x) =
-  somes (cells_under data kernel rows cols hr hc y x).
-Proof. exact wvals_window. Qed.
-Print Assumptions C09_window_values.
+(* NaN cells ignored, exactly the cells under the 1-entries — for every cell type and every NaN test that
+   recognises the fill value: the non-NaN entries of the window are the non-NaN cells under the kernel
+   (clipped at the edge), in row-major order ... *)
+Theorem C09_window_valid_cells :
+  forall (T K : Type) (isn : T -> bool) (nan : T) (kd : K) (is_one : K -> bool) data kernel rows cols hr hc y x,
+  isn nan = true ->
+  valid isn (concat (window_spec nan kd is_one data kernel rows cols hr hc y x)) =
+  valid isn (cells_under nan kd is_one data kernel rows cols hr hc y x).
+Proof. exact @window_valid. Qed.
+Print Assumptions C09_window_valid_cells.
 
-(* ... and Numba's nanmin / nanmax, modelled as written (first element, then "if not op(ret, v)"),
-   return a member of those values that bounds them all (NaN iff there is none) *)
-Theorem C09_min_max_spec : forall w,
-  (wvals w = [] -> calc_min w = None /\ calc_max w = None) /\
-  (wvals w <> [] -> exists lo hi, calc_min w = Some lo /\ calc_max w = Some hi /\
+(* ... and, for every arithmetic instance, Numba's nansum / nanmean / nanvar / nanmin / nanmax loops are the
+   plain loops over exactly those entries (same order, same accumulator types) *)
+Theorem C09_reducers_skip_nan : forall (A : Arith) (w : grid (T32 A)),
+  calc_sum A w = fold_left (sadd A) (valid (sisnan A) (concat w)) (szero A) /\
+  mean_acc A (sisnan A) (widen A) (concat w) =
+    fold_left (fun st v => (dadd A (fst st) (widen A v), snd st + 1)) (valid (sisnan A) (concat w)) (dofZ A 0, 0) /\
+  (forall m, var_acc A m (concat w) =
+    fold_left (fun st v => let val := dsub A (widen A v) m in (dadd A (fst st) (dmul A val val), snd st + 1))
+              (valid (sisnan A) (concat w)) (dofZ A 0, 0)) /\
+  (forall op r0 rest, nan_min_max A op (r0 :: rest) =
+    fold_left (fun r v => if negb (op r v) then v else r) (valid (sisnan A) rest) r0).
+Proof.
+  intros A w. split; [apply calc_sum_valid|]. split; [apply mean_acc_valid|].
+  split; [intros; apply var_acc_valid|intros; apply nan_min_max_valid].
+Qed.
+Print Assumptions C09_reducers_skip_nan.
+
+(* exact instance: nanmean is sum / count and nanvar the mean squared deviation of exactly the non-NaN
+   values (NaN when there is none), for every function standing for the square root *)
+Theorem C09_exact_mean_var : forall qs (w : grid xq),
+  calc_mean (ExactArith qs) w = nanmean_list (wvals w) /\
+  calc_var (ExactArith qs) w = var_list (wvals w).
+Proof. intros; split; [apply calc_mean_nanmean|apply calc_var_exact]. Qed.
+Print Assumptions C09_exact_mean_var.
+
+(* exact instance: Numba's nanmin / nanmax, modelled as written (first element, then "if not op(ret, v)"),
+   return a member of the non-NaN values that bounds them all (NaN iff there is none) *)
+Theorem C09_min_max_spec : forall qs w,
+  (wvals w = [] -> calc_min (ExactArith qs) w = None /\ calc_max (ExactArith qs) w = None) /\
+  (wvals w <> [] -> exists lo hi, calc_min (ExactArith qs) w = Some lo /\ calc_max (ExactArith qs) w = Some hi /\
       In lo (wvals w) /\ In hi (wvals w) /\ forall v, In v (wvals w) -> (lo <= v <= hi)%Q).
 Proof.
-  intros w. rewrite calc_min_somes, calc_max_somes. split.
+  intros qs w. rewrite calc_min_somes, calc_max_somes. split.
   - intros ->. split; reflexivity.
   - destruct (wvals w) as [|q r]; [congruence|]. intros _.
     destruct (fold_min_spec r q) as [I1 L1]. destruct (fold_max_spec r q) as [I2 L2].
@@ -79,105 +111,129 @@ Theorem C09_custom_kernel_rejects_even : forall nd rows cols,
 Proof. exact custom_kernel_rejects_even. Qed.
 Print Assumptions C09_custom_kernel_rejects_even.
 
-(* hotspots: only 0, +-90, +-95, +-99 ... *)
-Theorem C09_hotspot_values : forall z, In (hot_cell z) [0; 90; 95; 99; -90; -95; -99].
+(* hotspots, every arithmetic instance: only 0, +-90, +-95, +-99 ... *)
+Theorem C09_hotspot_values : forall (A : Arith) z, In (hot_cell A z) [0; 90; 95; 99; -90; -95; -99].
 Proof. exact hot_cell_values. Qed.
 Print Assumptions C09_hotspot_values.
 
-(* ... with the sign of the z-score and the thresholds 1.65 / 1.96 / 2.58 (T90/T95/T99 = the doubles
-   nearest to these decimals, written by hand in ProofsStats.v; the ladder constants of the source are
-   regenerated into Generated.v on every run — the p-value ladder never changes the outcome) *)
-Theorem C09_hotspot_thresholds : forall z : Q,
-  hot_cell (Some z) =
+(* ... exact instance: with the sign of the z-score and the thresholds 1.65 / 1.96 / 2.58 (T90/T95/T99 = the
+   doubles nearest to these decimals, written by hand in ProofsStats.v; the ladder constants of the source are
+   regenerated into Generated.v on every run — the p-value ladder never changes the outcome); NaN -> 0 *)
+Theorem C09_hotspot_thresholds : forall qs,
+  hot_cell (ExactArith qs) None = 0 /\
+  forall z : Q,
+  hot_cell (ExactArith qs) (Some z) =
   qsgn z * (if qltb T99 (Qabs z) then 99 else if qltb T95 (Qabs z) then 95 else if qltb T90 (Qabs z) then 90 else 0).
-Proof. exact hot_cell_ladder. Qed.
+Proof. intros qs; split; [apply hot_cell_nan|apply hot_cell_ladder]. Qed.
 Print Assumptions C09_hotspot_thresholds.
 
 (* negating the z-scores negates the classification (cell and raster) *)
-Theorem C09_hotspot_negate_z : forall zs,
-  calc_hotspots (map (map xopp) zs) = map (map Z.opp) (calc_hotspots zs).
+Theorem C09_hotspot_negate_z : forall qs zs,
+  calc_hotspots (ExactArith qs) (map (map xopp) zs) = map (map Z.opp) (calc_hotspots (ExactArith qs) zs).
 Proof. exact calc_hotspots_opp. Qed.
 Print Assumptions C09_hotspot_negate_z.
 
 (* hotspots(-X) = -hotspots(X) for the WHOLE pipeline at the exact instance: convolution by
-   kernel / kernel.sum(), global nanmean and nanstd (for every function standing for x ** 0.5), z-score,
-   ladder — including the ZeroDivisionError case (None on both sides) *)
-Theorem C09_hotspots_negate : forall (qsqrt : Q -> Q) data kernel nx ny wkx wky,
+   kernel / kernel.sum(), global nanmean and nanstd (sum / count semantics, for every function standing
+   for the square root), z-score, ladder — including the ZeroDivisionError case (None on both sides) *)
+Theorem C09_hotspots_negate : forall (qs : Q -> Q) data kernel nx ny wkx wky,
   0 <= wkx -> 0 <= wky -> wf data nx ny -> wf kernel (2 * wkx + 1) (2 * wky + 1) -> 0 < nx -> 0 <= ny ->
-  hotspots_numpy qsqrt (gneg data) kernel =
-  option_map (map (map Z.opp)) (hotspots_numpy qsqrt data kernel).
+  hotspots_numpy (ExactArith qs) (seq_nanmean (ExactArith qs)) (seq_nanstd (ExactArith qs)) (gneg data) kernel =
+  option_map (map (map Z.opp))
+             (hotspots_numpy (ExactArith qs) (seq_nanmean (ExactArith qs)) (seq_nanstd (ExactArith qs)) data kernel).
 Proof. exact hotspots_negate. Qed.
 Print Assumptions C09_hotspots_negate.
 
-(* focal mean, one pass: an excluded value (== or NaN-with-NaN against any entry of `excludes`) is passed
-   through untouched; every other cell becomes the nanmean of the cells of the 3x3 block around it that
-   exist (clipped3x3: rows y-1..y+1, columns x-1..x+1, inside the raster), NaN if there is none *)
-Theorem C09_mean_spec : forall rows cols excludes, 0 < rows ->
+(* the same for ANY pair of global reductions that is odd resp. even under negation (up to == of rationals) *)
+Theorem C09_hotspots_negate_any_reduction : forall (qs : Q -> Q) (gmean gstd : grid xq -> xq),
+  (forall X, xeq (gmean (gneg X)) (xopp (gmean X))) -> (forall X, gstd (gneg X) = gstd X) ->
+  forall data kernel nx ny wkx wky,
+  0 <= wkx -> 0 <= wky -> wf data nx ny -> wf kernel (2 * wkx + 1) (2 * wky + 1) -> 0 < nx -> 0 <= ny ->
+  hotspots_numpy (ExactArith qs) gmean gstd (gneg data) kernel =
+  option_map (map (map Z.opp)) (hotspots_numpy (ExactArith qs) gmean gstd data kernel).
+Proof. exact hotspots_negate_gen. Qed.
+Print Assumptions C09_hotspots_negate_any_reduction.
+
+(* focal mean, one pass, every arithmetic instance: an excluded value (== or NaN-with-NaN against any entry
+   of `excludes`) is passed through untouched; every other cell becomes Numba's nanmean (float64 accumulator,
+   count, one division) over the cells of the 3x3 block around it that exist (clipped3x3: rows y-1..y+1,
+   columns x-1..x+1, inside the raster, row-major) *)
+Theorem C09_mean_spec : forall (A : Arith) rows cols excludes, 0 < rows ->
   forall data y x, wf data rows cols -> 0 <= y < rows -> 0 <= x < cols ->
-  get2 None (mean_numpy data excludes) y x =
-  if excluded excludes (get2 None data y x) then get2 None data y x
-  else nanmean_list (somes (clipped3x3 data rows cols y x)).
+  get2 (dnan A) (mean_numpy A data excludes) y x =
+  if excluded A excludes (get2 (dnan A) data y x) then get2 (dnan A) data y x
+  else nanmean_gen A (disnan A) (fun v => v) (clipped3x3 (dnan A) data rows cols y x).
 Proof. exact mean_numpy_spec. Qed.
 Print Assumptions C09_mean_spec.
 
-(* "focal mean is the same with a full 3x3 window": a non-excluded cell of focal mean equals focal apply
-   with the all-ones 3x3 kernel and the nanmean reducer (same window_spec as C09_apply_window_spec) *)
-Theorem C09_mean_is_apply_3x3 : forall rows cols excludes data y x,
+(* exact instance: that loop is sum / count of the non-NaN values, NaN if there is none *)
+Theorem C09_mean_exact : forall qs (flat : list xq),
+  nanmean_gen (ExactArith qs) oisnan (fun v => v) flat = nanmean_list (somes flat).
+Proof. exact nanmean_gen_exact. Qed.
+Print Assumptions C09_mean_exact.
+
+(* "focal mean is the same with a full 3x3 window" (exact instance): a non-excluded cell of focal mean equals
+   focal apply with the all-ones 3x3 kernel and the nanmean reducer (same window_spec as C09_apply_window_spec) *)
+Theorem C09_mean_is_apply_3x3 : forall qs rows cols excludes (data : grid xq) y x,
   0 < rows -> wf data rows cols -> 0 <= y < rows -> 0 <= x < cols ->
-  excluded excludes (get2 None data y x) = false ->
-  get2 None (mean_numpy data excludes) y x =
-  calc_mean (window_spec None 0%Q is_one_q data ones33 rows cols 1 1 y x).
+  excluded (ExactArith qs) excludes (get2 None data y x) = false ->
+  get2 None (mean_numpy (ExactArith qs) data excludes) y x =
+  calc_mean (ExactArith qs) (window_spec None None (is_one (ExactArith qs)) data ones33 rows cols 1 1 y x).
 Proof. exact mean_is_apply_3x3. Qed.
 Print Assumptions C09_mean_is_apply_3x3.
 
-(* `passes` = iteration of the one-pass filter (0 or negative: the input itself) *)
-Theorem C09_mean_passes : forall excludes data (n : nat),
-  mean data (Z.of_nat n) excludes = Nat.iter n (fun d => mean_numpy d excludes) data.
+(* `passes` = iteration of the one-pass filter, every arithmetic instance *)
+Theorem C09_mean_passes : forall (A : Arith) excludes data (n : nat),
+  mean A data (Z.of_nat n) excludes = Nat.iter n (fun d => mean_numpy A d excludes) data.
 Proof. exact mean_passes. Qed.
 Print Assumptions C09_mean_passes.
 
-(* an excluded cell keeps its value through any number of passes *)
-Theorem C09_mean_excluded_passthrough : forall rows cols excludes, 0 < rows ->
+(* an excluded cell keeps its value through any number of passes, every arithmetic instance *)
+Theorem C09_mean_excluded_passthrough : forall (A : Arith) rows cols excludes, 0 < rows ->
   forall data y x (n : nat), 0 <= cols -> wf data rows cols -> 0 <= y < rows -> 0 <= x < cols ->
-  excluded excludes (get2 None data y x) = true ->
-  wf (mean data (Z.of_nat n) excludes) rows cols /\
-  get2 None (mean data (Z.of_nat n) excludes) y x = get2 None data y x.
+  excluded A excludes (get2 (dnan A) data y x) = true ->
+  wf (mean A data (Z.of_nat n) excludes) rows cols /\
+  get2 (dnan A) (mean A data (Z.of_nat n) excludes) y x = get2 (dnan A) data y x.
 Proof. exact mean_excluded_passthrough. Qed.
 Print Assumptions C09_mean_excluded_passthrough.
 
-(* convolution_2d: for EVERY raster and EVERY odd kernel shape, cell (i, j) is the kernel-weighted sum over
-   the FULL (2wkx+1) x (2wky+1) window (wsum: sum of kernel[a][b] * data[i+a-wkx][j+b-wky], row-major),
-   and NaN exactly where the window leaves the raster ... *)
-Theorem C09_conv_spec : forall data kernel nx ny wkx wky,
+(* convolution_2d, every arithmetic instance, EVERY raster and EVERY odd kernel shape: cell (i, j) is the
+   kernel-weighted sum over the FULL (2wkx+1) x (2wky+1) window (wsum: kernel[a][b] * data[i+a-wkx][j+b-wky]
+   accumulated row-major in float64 from 0.0), rounded once into the float32 output, and NaN where the window
+   leaves the raster ... *)
+Theorem C09_conv_spec : forall (A : Arith) data kernel nx ny wkx wky,
   0 <= wkx -> 0 <= wky -> wf data nx ny -> wf kernel (2 * wkx + 1) (2 * wky + 1) -> 0 < nx ->
   forall i j, 0 <= i < nx -> 0 <= j < ny ->
-  get2 None (convolve_2d data kernel) i j =
+  get2 (snan A) (convolve_2d A data kernel) i j =
   if (wkx <=? i) && (i <? nx - wkx) && (wky <=? j) && (j <? ny - wky)
-  then wsum data kernel wkx wky i j else None.
+  then narrow A (wsum A data kernel wkx wky i j) else snan A.
 Proof. exact conv_spec. Qed.
 Print Assumptions C09_conv_spec.
 
-(* ... or covers a NaN cell (even under a zero weight) *)
-Theorem C09_conv_nan_iff : forall data kernel wkx wky i j,
-  wsum data kernel wkx wky i j = None <->
-  exists a b, 0 <= a < 2 * wkx + 1 /\ 0 <= b < 2 * wky + 1 /\ get2 None data (i + a - wkx) (j + b - wky) = None.
+(* ... exact instance: an interior cell is NaN iff the window covers a NaN cell (even under a zero weight)
+   or a NaN weight *)
+Theorem C09_conv_nan_iff : forall qs data kernel wkx wky i j,
+  wsum (ExactArith qs) data kernel wkx wky i j = None <->
+  exists a b, 0 <= a < 2 * wkx + 1 /\ 0 <= b < 2 * wky + 1 /\
+              (get2 None kernel a b = None \/ get2 None data (i + a - wkx) (j + b - wky) = None).
 Proof. exact wsum_none. Qed.
 Print Assumptions C09_conv_nan_iff.
 
 (* ---------------- non-vacuity ---------------- *)
-(* a 3 x 4 raster with a NaN, an asymmetric 3 x 5 kernel (hr = 1, hc = 2): the hypotheses hold and the
-   model computes the sums of exactly the cells under the kernel (worked out by hand: the kernel selects
-   the cell two to the left in the row above, the cell itself, and the cell one to the right in the row below) *)
+(* a 3 x 4 raster with a NaN, an asymmetric 3 x 5 kernel (hr = 1, hc = 2): the hypotheses hold and BOTH
+   instances of the model compute the sums of exactly the cells under the kernel (worked out by hand: the kernel
+   selects the cell two to the left in the row above, the cell itself, and the cell one to the right in the row below) *)
 Example C09_nonvacuous_apply :
   let data : grid xq := [[Some 1%Q; Some 2%Q; Some 3%Q; Some 4%Q];
                          [Some 5%Q; None;     Some 7%Q; Some 8%Q];
                          [Some 9%Q; Some 10%Q; Some 11%Q; Some 12%Q]] in
-  let kernel : grid Q := [[1%Q; 0%Q; 0%Q; 0%Q; 0%Q]; [0%Q; 0%Q; 1%Q; 0%Q; 0%Q]; [0%Q; 0%Q; 0%Q; 1%Q; 0%Q]] in
+  let o : xq := Some 0%Q in let l : xq := Some 1%Q in
+  let kernel : grid xq := [[l; o; o; o; o]; [o; o; l; o; o]; [o; o; o; l; o]] in
   wf data 3 4 /\ wf kernel (2 * 1 + 1) (2 * 2 + 1) /\
-  map (map qred_x) (apply_numpy None (Some 0%Q) 0%Q is_one_q calc_sum data kernel) =
-  [[Some 1%Q; Some 9%Q; Some 11%Q; Some 4%Q];
-   [Some 15%Q; Some 11%Q; Some 20%Q; Some 10%Q];
-   [Some 9%Q; Some 10%Q; Some 16%Q; Some 12%Q]].
+  option_map (map (map qred_x)) (q_apply (calc_sum E0) data kernel) =
+  Some [[Some 1%Q; Some 9%Q; Some 11%Q; Some 4%Q];
+        [Some 15%Q; Some 11%Q; Some 20%Q; Some 10%Q];
+        [Some 9%Q; Some 10%Q; Some 16%Q; Some 12%Q]].
 Proof.
   cbv zeta. split; [|split].
   - split; [reflexivity|]. intros i Hi.
@@ -187,8 +243,26 @@ Proof.
   - vm_compute. reflexivity.
 Qed.
 
+(* the same raster and kernel at the float instance (1.0 .. 12.0, NaN; SpecFloat binary32 / PrimFloat evaluation),
+   and a float32 rounding: the nanmean of 0.1f and 0.2f stored as float32 is 0x1.333334p-3 *)
+Definition fgrid_eqb (g h : grid float) : bool :=
+  forallb (fun pr => forallb (fun q => PrimFloat.eqb (fst q) (snd q)) (combine (fst pr) (snd pr))) (combine g h).
+Example C09_nonvacuous_apply_float :
+  let n := PrimFloat.nan in
+  let data := [[1; 2; 3; 4]; [5; n; 7; 8]; [9; 10; 11; 12]]%float in
+  let kernel := [[1; 0; 0; 0; 0]; [0; 0; 1; 0; 0]; [0; 0; 0; 1; 0]]%float in
+  match f_apply PNansum data kernel with
+  | Some g => fgrid_eqb g [[1; 9; 11; 4]; [15; 11; 20; 10]; [9; 10; 16; 12]]%float
+  | None => false
+  end = true /\
+  match f_apply PNanmean [[0x1.99999ap-4; 0x1.99999ap-3]]%float [[1; 1; 1]]%float with
+  | Some g => fgrid_eqb g [[0x1.333334p-3; 0x1.333334p-3]]%float
+  | None => false
+  end = true.
+Proof. cbv zeta. split; vm_compute; reflexivity. Qed.
+
 Example C09_nonvacuous_hotspots :
-  map hot_cell [Some (3 # 1)%Q; Some (- (2 # 1))%Q; Some (17 # 10)%Q; Some (8 # 5)%Q; Some 0%Q; None]
+  map (hot_cell E0) [Some (3 # 1)%Q; Some (- (2 # 1))%Q; Some (17 # 10)%Q; Some (8 # 5)%Q; Some 0%Q; None]
   = [99; -95; 90; 0; 0; 0].
 Proof. vm_compute. reflexivity. Qed.
 
@@ -198,11 +272,12 @@ Proof. repeat split. Qed.
 
 Example C09_nonvacuous_mean_conv :
   let data : grid xq := [[Some 1%Q; Some 2%Q; Some 3%Q]; [Some 4%Q; None; Some 6%Q]; [Some 7%Q; Some 8%Q; Some 9%Q]] in
+  let o : xq := Some 0%Q in
   wf data 3 3 /\
-  map (map qred_x) (mean data 1 [None; Some 9%Q]) =
+  map (map qred_x) (q_mean data 1 [None; Some 9%Q]) =
     [[Some (7 # 3)%Q; Some (16 # 5)%Q; Some (11 # 3)%Q]; [Some (22 # 5)%Q; None; Some (28 # 5)%Q]; [Some (19 # 3)%Q; Some (34 # 5)%Q; Some 9%Q]] /\
-  map (map qred_x) (convolve_2d [[Some 1%Q; Some 2%Q; Some 3%Q]; [Some 4%Q; Some 5%Q; Some 6%Q]; [Some 7%Q; Some 8%Q; Some 9%Q]]
-                                [[(1 # 2)%Q; 0%Q; 0%Q]; [0%Q; 1%Q; 0%Q]; [0%Q; 0%Q; (1 # 4)%Q]]) =
+  map (map qred_x) (q_conv [[Some 1%Q; Some 2%Q; Some 3%Q]; [Some 4%Q; Some 5%Q; Some 6%Q]; [Some 7%Q; Some 8%Q; Some 9%Q]]
+                           [[Some (1 # 2)%Q; o; o]; [o; Some 1%Q; o]; [o; o; Some (1 # 4)%Q]]) =
     [[None; None; None]; [None; Some (31 # 4)%Q; None]; [None; None; None]].
 Proof.
   cbv zeta. split; [|split].
@@ -214,6 +289,7 @@ Qed.
 
 Example C09_nonvacuous_hotspots_pipeline :
   let data : grid xq := [[Some 0%Q; Some 0%Q; Some 0%Q]; [Some 0%Q; Some 0%Q; Some 0%Q]; [Some 0%Q; Some 0%Q; Some 90%Q]] in
-  hotspots_numpy (fun _ => (28 # 1)%Q) data [[1%Q]] = Some [[0; 0; 0]; [0; 0; 0]; [0; 0; 99]] /\
-  hotspots_numpy (fun _ => (28 # 1)%Q) (gneg data) [[1%Q]] = Some [[0; 0; 0]; [0; 0; 0]; [0; 0; -99]].
+  let A := ExactArith (fun _ => (28 # 1)%Q) in
+  hotspots_numpy A (seq_nanmean A) (seq_nanstd A) data [[Some 1%Q]] = Some [[0; 0; 0]; [0; 0; 0]; [0; 0; 99]] /\
+  hotspots_numpy A (seq_nanmean A) (seq_nanstd A) (gneg data) [[Some 1%Q]] = Some [[0; 0; 0]; [0; 0; 0]; [0; 0; -99]].
 Proof. split; vm_compute; reflexivity. Qed.
